@@ -58,6 +58,8 @@ pub struct Machine<'p> {
     pub dispatch_hist: HashMap<String, u64>,
     /// heap object mutated by the last instruction, if any
     pub touched: Option<usize>,
+    /// for an array `set`: the index written (large arrays are compared around it between sweeps)
+    pub touched_cell: Option<usize>,
     /// the program ended by running off the end of the file's last method
     pub ran_off_end: bool,
     /// total number of array elements allocated so far
@@ -127,6 +129,7 @@ impl<'p> Machine<'p> {
             opcode_hist: [0; 17],
             dispatch_hist: HashMap::new(),
             touched: None,
+            touched_cell: None,
             ran_off_end: false,
             heap_cells: 0,
             frame_cells: 0,
@@ -197,6 +200,7 @@ impl<'p> Machine<'p> {
         let ins = self.code(m)[off].clone();
         self.steps += 1;
         self.touched = None;
+        self.touched_cell = None;
         self.opcode_hist[ins.opcode() as usize] += 1;
         if let Err(e) = self.exec(m, off, &ins) {
             if self.status == Status::Running {
@@ -475,6 +479,10 @@ impl<'p> Machine<'p> {
                     HObj::Array(es) => {
                         let p = array_method(es, name, &args);
                         self.touched = Some(r);
+                        self.touched_cell = match (name, args.first()) {
+                            ("set", Some(V::Int(i))) if *i >= 0 => Some(*i as usize),
+                            _ => None,
+                        };
                         self.note_dispatch("array", name, hops);
                         Some(p)
                     }
